@@ -2,8 +2,6 @@
 
 from copy import deepcopy
 
-import torch
-
 from torch.nn import ModuleList
 
 from gpytorch.likelihoods import Likelihood
@@ -23,13 +21,9 @@ class LikelihoodList(Likelihood):
         super().__init__()
         self.likelihoods = ModuleList(likelihoods)
 
-    def _per_member(self, noise):
-        # one entry per member; a single tensor is the noise of every member
-        return [noise] * len(self.likelihoods) if torch.is_tensor(noise) else noise
-
     def expected_log_prob(self, *args, **kwargs):
         if kwargs.get("noise") is not None:
-            noise = self._per_member(kwargs.pop("noise"))
+            noise = kwargs.pop("noise")
             # if noise kwarg is passed, assume it's an iterable of noise tensors
             return [
                 likelihood.expected_log_prob(*args_, **{**kwargs, "noise": noise_})
@@ -44,7 +38,7 @@ class LikelihoodList(Likelihood):
 
     def forward(self, *args, **kwargs):
         if kwargs.get("noise") is not None:
-            noise = self._per_member(kwargs.pop("noise"))
+            noise = kwargs.pop("noise")
             # if noise kwarg is passed, assume it's an iterable of noise tensors
             return [
                 likelihood.forward(*args_, **{**kwargs, "noise": noise_})
@@ -59,7 +53,7 @@ class LikelihoodList(Likelihood):
 
     def log_marginal(self, *args, **kwargs):
         if kwargs.get("noise") is not None:
-            noise = self._per_member(kwargs.pop("noise"))
+            noise = kwargs.pop("noise")
             # if noise kwarg is passed, assume it's an iterable of noise tensors
             return [
                 likelihood.log_marginal(*args_, **{**kwargs, "noise": noise_})
@@ -74,7 +68,7 @@ class LikelihoodList(Likelihood):
 
     def marginal(self, *args, **kwargs):
         if kwargs.get("noise") is not None:
-            noise = self._per_member(kwargs.pop("noise"))
+            noise = kwargs.pop("noise")
             # if noise kwarg is passed, assume it's an iterable of noise tensors
             return [
                 likelihood.marginal(*args_, **{**kwargs, "noise": noise_})
@@ -102,15 +96,20 @@ class LikelihoodList(Likelihood):
                 if id(likelihood) not in copies:
                     copies[id(likelihood)] = likelihood.get_fantasy_likelihood(**kwargs)
             members = [copies[id(likelihood)] for likelihood in self.likelihoods]
-        # a copy of the list itself (its own state, attributes, mode) whose members are the fantasy likelihoods
-        fantasy_likelihood = deepcopy(self)
-        for i, member in enumerate(members):
-            fantasy_likelihood.likelihoods[i] = member
+        # a copy of the list itself (its own state, attributes, mode) - without copying the members, which make
+        # their own copies - whose members are the fantasy likelihoods
+        old_likelihoods = self.likelihoods
+        self.likelihoods = None
+        try:
+            fantasy_likelihood = deepcopy(self)
+        finally:
+            self.likelihoods = old_likelihoods
+        fantasy_likelihood.likelihoods = ModuleList(members)
         return fantasy_likelihood
 
     def pyro_sample_output(self, *args, **kwargs):
         if kwargs.get("noise") is not None:
-            noise = self._per_member(kwargs.pop("noise"))
+            noise = kwargs.pop("noise")
             # if noise kwarg is passed, assume it's an iterable of noise tensors
             return [
                 likelihood.pyro_sample_output(*args_, **{**kwargs, "noise": noise_})
@@ -125,13 +124,14 @@ class LikelihoodList(Likelihood):
 
     def __call__(self, *args, **kwargs):
         if kwargs.get("noise") is not None:
-            noise = self._per_member(kwargs.pop("noise"))
+            noise = kwargs.pop("noise")
             # if noise kwarg is passed, assume it's an iterable of noise tensors
             return [
                 likelihood(*args_, **{**kwargs, "noise": noise_})
                 for likelihood, args_, noise_ in length_safe_zip(self.likelihoods, _get_tuple_args_(*args), noise)
             ]
         else:
+            kwargs.pop("noise", None)
             return [
                 likelihood(*args_, **kwargs)
                 for likelihood, args_ in length_safe_zip(self.likelihoods, _get_tuple_args_(*args))
